@@ -84,7 +84,7 @@ RULE = ("schemas from a recursive generator over the keyword set (type, properti
         "description or > 120 chars, distinct by sha256 of the case")
 ASSUMPTIONS = [
     "recogniser (Sem/PyGram.lean): a hand-written model of CPython's tokenizer / parser for the emitted subset, three-valued; 'unknown' (no claim) for other operators and keywords, tabs, backslash continuations, string prefixes, \'\'\' literals, escapes the literal model does not decide, non-ASCII characters that are not identifier characters; bracket nesting above 200 is rejected (CPython's MAXLEVEL)",
-    "oracles supplied per case: str.isprintable and str.isidentifier on non-ASCII characters, repr(float) (checked by the driver to be a decimal literal); the acceptance theorem covers ASCII names only",
+    "oracles supplied per case: str.isprintable and str.isidentifier on non-ASCII characters, repr(float) (checked by the driver to be a decimal literal); the acceptance theorem is relative to these oracles (identOk X)",
     "lexer model of string literals: \\N{name} escapes and escapes denoting lone surrogates are not modelled (generators avoid them)",
     "property names in the proved region are identifiers that are not Python keywords, not __debug__, not name-mangled (__x) and do not start with an underscore; other names are generated on purpose and keyed compile:/exec:/roundtrip:name-not-identifier",
     "numeric keywords: integers and dyadic floats (exact in decimal); float-valued bounds are not integral; multiplesOf is a positive int",
